@@ -84,6 +84,15 @@ Theorem C19_publish_prunes_closed : forall pre c p ch m,
 Proof. exact publish_prunes_closed. Qed.
 Print Assumptions C19_publish_prunes_closed.
 
+(* ... but a PUBLISH never removes an open connection from any table: a stalled or dead subscriber
+   does not take the healthy ones with it (they get this message by C19_publish_step and, still being
+   subscribed, every later one by C19_delivery_exact) *)
+Theorem C19_publish_keeps_open_subscribers : forall pre p ch m c ch',
+  is_closed (run init pre) c = false ->
+  in_tab (run init (pre ++ [Publish p ch m])) c ch' = in_tab (run init pre) c ch'.
+Proof. exact publish_keeps_open_subscribers. Qed.
+Print Assumptions C19_publish_keeps_open_subscribers.
+
 (* ... and in both cases nothing is delivered to it ever again, whatever follows *)
 Theorem C19_closed_receives_nothing : forall pre o c q ch,
   o = Close c \/ o = Disconnect c ->
